@@ -4,7 +4,7 @@ from contracts import c01_lp  # noqa
 from props._generic import run_property, replay_with_driver
 
 LEVEL = "other"
-KEYS = ["_fix_type", "Reaction.bounds@setter", "Reaction.lower_bound@setter", "Reaction.upper_bound@setter"]
+KEYS = ["_fix_type", "_reaction_to_dict", "Reaction.bounds@setter", "Reaction.lower_bound@setter", "Reaction.upper_bound@setter"]
 
 
 def lemmas():
@@ -20,10 +20,49 @@ def lemmas():
     return [Obl("C11/lemma/bounds-pair-protocol-never-raises-for-valid-pairs", dom, z3.And(valid_case, z3.Not(raises_case)), "lemma")]
 
 
+def fallback(key, case, rec):
+    """native search for a failed _reaction_to_dict obligation: every pair of bounds from a grid; the written entry must be the
+    float itself for a finite bound and a string for inf / -inf / nan, and the JSON encoder (allow_nan=False) must accept it"""
+    if key != "_reaction_to_dict":
+        return None
+    import itertools
+    import json
+    import math
+    import warnings
+    import cobra
+    from cobra.io.dict import _reaction_to_dict
+    warnings.simplefilter("ignore")
+    inf = float("inf")
+    grid = [-inf, -1000.0, -1.5, 0.0, 2.5, 1000.0, inf]
+    for lb, ub in itertools.product(grid, grid):
+        if lb > ub:
+            continue
+        r = cobra.Reaction("R1", lower_bound=0, upper_bound=0)
+        r._lower_bound, r._upper_bound = lb, ub          # the function only reads the two attributes
+        r.add_metabolites({cobra.Metabolite("a_c", compartment="c"): -1.0})
+        rep = {"kind": "reaction_to_dict", "lb": repr(lb), "ub": repr(ub)}
+        try:
+            d = _reaction_to_dict(r)
+        except Exception as e:  # noqa
+            return {"key": "_reaction_to_dict:raised", "failure": f"bounds ({lb},{ub}): raised {e!r}", "replay": rep}
+        for name, x in (("lower_bound", lb), ("upper_bound", ub)):
+            special = math.isinf(x) or math.isnan(x)
+            v = d.get(name)
+            if special != isinstance(v, str) or (not special and v != x) or (special and float(v) != x):
+                return {"key": "_reaction_to_dict:bound-entry", "failure": f"bounds ({lb},{ub}): entry {name} = {v!r}", "replay": rep}
+        try:
+            json.dumps(d, allow_nan=False)
+        except Exception as e:  # noqa
+            return {"key": "_reaction_to_dict:json", "failure": f"bounds ({lb},{ub}): json.dumps raised {e!r}", "replay": rep}
+    return None
+
+
 def run(rep):
-    run_property(rep, KEYS, hooks=C.HOOKS, lemmas=lemmas, explanation=(
+    run_property(rep, KEYS, hooks=C.HOOKS, lemmas=lemmas, fallback=fallback, explanation=(
         "Deductive part is thin and stated as such: dict._fix_type is proved to be the identity on str/float/bool/int and to map None to "
-        "'' ; the bounds setters the loaders rely on are proved (C01 kernel) and the protocol lemma `assigning both bounds at once "
+        "'' ; dict._reaction_to_dict is proved to write identifier, name and rule as they are and each bound as the float itself exactly "
+        "when it is finite and as a string exactly when it is infinite or NaN (what the JSON encoder needs), for every pair of bounds, "
+        "relative to the assumed frame contract of _update_optional (touches only the optional keys); the bounds setters the loaders rely on are proved (C01 kernel) and the protocol lemma `assigning both bounds at once "
         "succeeds for every valid pair` follows from the setter contract (the one-at-a-time protocol of the original loaders did not: "
         "fixed in /repo). The codecs (json, ruamel.yaml, pickle), the dict assembly loops over heterogeneous values and the gene-rule "
         "text are outside the verifier's reach: bounded driver (snapshot equality incl. the solver problem, optimum and idempotence for "
@@ -32,4 +71,19 @@ def run(rep):
 
 
 def replay(payload):
+    fi = (payload.get("failing_input") or {}).get("replay") or {}
+    if fi.get("kind") == "reaction_to_dict":
+        import json
+        import cobra
+        from cobra.io.dict import _reaction_to_dict
+        r = cobra.Reaction("R1", lower_bound=0, upper_bound=0)
+        r._lower_bound, r._upper_bound = float(fi["lb"]), float(fi["ub"])
+        d = _reaction_to_dict(r)
+        try:
+            json.dumps(d, allow_nan=False)
+            ok = all(isinstance(d[k], str) == (abs(float(fi[s])) == float("inf") or float(fi[s]) != float(fi[s]))
+                     for k, s in (("lower_bound", "lb"), ("upper_bound", "ub")))
+        except Exception:  # noqa
+            ok = False
+        return {"reproduced": not ok, "observed": {k: repr(d[k]) for k in ("lower_bound", "upper_bound")}}
     return replay_with_driver("C11", payload)
